@@ -163,6 +163,14 @@ func (m *memdbManager) Pop() error {
 		return errors.Errorf("can't find previous for ")
 	}
 
+	// the inner commits of the transaction were registered with the version of its head
+	head := m.versions[m.frontierIdentifier]
+	for identifier, version := range m.versions {
+		if version == head {
+			delete(m.versions, identifier)
+			delete(m.patches, identifier)
+		}
+	}
 	delete(m.previous, m.frontierIdentifier)
 	delete(m.versions, m.frontierIdentifier)
 	delete(m.patches, m.frontierIdentifier)
